@@ -244,6 +244,72 @@ pub fn analyse(m: &Matrix, n_tracks: usize) -> Verdict {
     }
 }
 
+/// `analyse` per connected component of the bipartite graph of open pairs: detections that
+/// share no candidate track cannot influence one another, so the optimum (and its uniqueness)
+/// is the combination of the components' optima. Returns None when a component is larger than
+/// the brute-force caps (the step is then counted as ambiguous by the caller).
+pub fn analyse_components(m: &Matrix, n_tracks: usize, cap_rows: usize, cap_cols: usize) -> Option<Verdict> {
+    let n = m.pairs.len();
+    let mut parent: Vec<usize> = (0..n + n_tracks).collect();
+    fn find(p: &mut Vec<usize>, x: usize) -> usize {
+        let mut r = x;
+        while p[r] != r {
+            r = p[r];
+        }
+        let mut c = x;
+        while p[c] != r {
+            let nx = p[c];
+            p[c] = r;
+            c = nx;
+        }
+        r
+    }
+    for (i, row) in m.pairs.iter().enumerate() {
+        for (j, p) in row.iter().enumerate() {
+            if matches!(p, Pair::Open(_)) {
+                let (a, b) = (find(&mut parent, i), find(&mut parent, n + j));
+                if a != b {
+                    parent[a] = b;
+                }
+            }
+        }
+    }
+    let mut groups: std::collections::BTreeMap<usize, (Vec<usize>, Vec<usize>)> = Default::default();
+    for i in 0..n {
+        let r = find(&mut parent, i);
+        groups.entry(r).or_default().0.push(i);
+    }
+    for j in 0..n_tracks {
+        let r = find(&mut parent, n + j);
+        if let Some(g) = groups.get_mut(&r) {
+            g.1.push(j);
+        }
+    }
+    let mut out = Verdict { ambiguous: m.near_threshold, best_total: 0.0, best: vec![None; n], unique: true, greedy_differs: false };
+    for (_, (rows, cols)) in groups {
+        if rows.len() > cap_rows || cols.len() > cap_cols {
+            return None;
+        }
+        let sub = Matrix {
+            pairs: rows.iter().map(|i| cols.iter().map(|j| m.pairs[*i][*j].clone()).collect()).collect(),
+            near_threshold: m.near_threshold,
+            unmatched_weight: m.unmatched_weight,
+            weight_margin: m.weight_margin,
+            close_above: 0,
+            close_below: 0,
+        };
+        let v = analyse(&sub, cols.len());
+        out.best_total += v.best_total;
+        out.unique &= v.unique;
+        out.ambiguous |= v.ambiguous;
+        out.greedy_differs |= v.greedy_differs;
+        for (k, i) in rows.iter().enumerate() {
+            out.best[*i] = v.best[k].map(|c| cols[c]);
+        }
+    }
+    Some(out)
+}
+
 pub fn total_of(m: &Matrix, a: &[Option<usize>]) -> Option<f64> {
     let mut t = 0.0;
     for (i, c) in a.iter().enumerate() {
